@@ -1222,4 +1222,150 @@ theorem getD_map_mid {β γ : Type} (f : β → γ) (pre post : List β) (c : β
     ((pre ++ c :: post).map f).getD pre.length d = f c := by
   simp [List.getD_eq_getElem?_getD]
 
+/-! ## `DwelltimeModel.pdf` of data pooled from several observation windows -/
+
+section pooled
+open MeasureTheory Set
+
+theorem continuous_specPdfCont (comps : List (Comp ℝ)) (tmin : ℝ) (tmax : Option ℝ) :
+    Continuous fun t => specPdfCont comps tmin tmax t := by
+  unfold specPdfCont
+  refine (continuous_sum_map comps (fun c s => c.amp / c.tau * Real.exp (-s / c.tau)) ?_).div_const _
+  intro c _
+  exact continuous_const.mul (Real.continuous_exp.comp ((continuous_id.neg).div_const _))
+
+/-- a function masked to `[a, b)` integrates over any interval containing `[a, b]` to its integral over `[a, b]` -/
+theorem integral_indicator_Ico (f : ℝ → ℝ) (lo hi a b : ℝ) (h1 : lo ≤ a) (h2 : a ≤ b) (h3 : b ≤ hi) :
+    ∫ x in lo..hi, (Ico a b).indicator f x = ∫ x in a..b, f x := by
+  rw [intervalIntegral.integral_of_le (by linarith), intervalIntegral.integral_of_le h2,
+    setIntegral_indicator measurableSet_Ico]
+  apply setIntegral_congr_set
+  have hset : (Ioc lo hi ∩ Ioo a b : Set ℝ) = Ioo a b := by
+    ext x
+    simp only [mem_inter_iff, mem_Ioc, mem_Ioo]
+    constructor
+    · exact fun h => h.2
+    · exact fun h => ⟨⟨by linarith [h.1], by linarith [h.2]⟩, h⟩
+  have h4 : (Ioc lo hi ∩ Ico a b : Set ℝ) =ᵐ[volume] (Ioc lo hi ∩ Ioo a b : Set ℝ) :=
+    ae_eq_set_inter (ae_eq_refl _) Ioo_ae_eq_Ico.symm
+  rw [hset] at h4
+  exact h4.trans Ioo_ae_eq_Ioc
+
+theorem integral_list_sum {β : Type} (l : List β) (F : β → ℝ → ℝ) (lo hi : ℝ)
+    (hint : ∀ c ∈ l, IntervalIntegrable (F c) volume lo hi) :
+    ∫ x in lo..hi, (l.map fun c => F c x).sum = (l.map fun c => ∫ x in lo..hi, F c x).sum := by
+  induction l with
+  | nil => simp
+  | cons c cs ih =>
+    have hc := hint c (List.mem_cons_self ..)
+    have hcs : ∀ d ∈ cs, IntervalIntegrable (F d) volume lo hi := fun d hd => hint d (List.mem_cons_of_mem _ hd)
+    have hsum : IntervalIntegrable (fun x => (cs.map fun d => F d x).sum) volume lo hi := by
+      clear ih hc hint
+      induction cs with
+      | nil => simp
+      | cons d ds ih2 =>
+        simp only [List.map_cons, List.sum_cons]
+        exact (hcs d (List.mem_cons_self ..)).add (ih2 fun e he => hcs e (List.mem_cons_of_mem _ he))
+    simp only [List.map_cons, List.sum_cons]
+    rw [intervalIntegral.integral_add hc hsum, ih hcs]
+
+
+/-! ## `DwelltimeModel.pdf` of pooled observation windows -/
+
+theorem logComps_length (comps : List (Comp ℝ)) (o : Obs ℝ) : (logComps comps o).length = comps.length := by
+  unfold logComps
+  cases o.step <;> simp
+
+theorem sumL_pdfRows (comps : List (Comp ℝ)) (hne : comps ≠ []) (o : Obs ℝ) :
+    sumL (pdfRows comps o) = pdf comps o := by
+  have h : logComps comps o ≠ [] := by
+    intro h0
+    have := logComps_length comps o
+    rw [h0] at this
+    exact hne (List.length_eq_zero_iff.mp this.symm)
+  unfold pdfRows pdf logLikObs
+  rw [sumL_eq_sum]
+  exact (exp_lse _ h).symm
+
+theorem addRows_length : ∀ (a b : List ℝ), a.length = b.length → (addRows a b).length = a.length
+  | [], [], _ => rfl
+  | [], _ :: _, h => by simp at h
+  | _ :: _, [], h => by simp at h
+  | x :: xs, y :: ys, h => by
+    simp only [addRows, List.length_cons]
+    rw [addRows_length xs ys (by simpa using h)]
+
+theorem sumL_addRows : ∀ (a b : List ℝ), a.length = b.length → sumL (addRows a b) = sumL a + sumL b
+  | [], [], _ => by simp only [addRows, sumL]; norm_num
+  | [], _ :: _, h => by simp at h
+  | _ :: _, [], h => by simp at h
+  | x :: xs, y :: ys, h => by
+    simp only [addRows, sumL]
+    rw [sumL_addRows xs ys (by simpa using h)]; ring
+
+theorem sumL_foldl_addRows {β : Type} (n : Nat) (g : β → List ℝ) :
+    ∀ (l : List β) (acc : List ℝ), acc.length = n → (∀ c ∈ l, (g c).length = n) →
+      sumL (l.foldl (fun acc c => addRows acc (g c)) acc) = sumL acc + (l.map fun c => sumL (g c)).sum
+  | [], acc, _, _ => by simp
+  | c :: cs, acc, hacc, hg => by
+    have hc := hg c (List.mem_cons_self ..)
+    simp only [List.foldl_cons, List.map_cons, List.sum_cons]
+    rw [sumL_foldl_addRows n g cs (addRows acc (g c)) (by rw [addRows_length _ _ (by omega)]; exact hacc)
+      (fun d hd => hg d (List.mem_cons_of_mem _ hd)), sumL_addRows _ _ (by omega)]
+    ring
+
+theorem sumL_zeros {β : Type} (l : List β) : sumL (l.map fun _ => (0.0 : ℝ)) = 0 := by
+  rw [sumL_eq_sum]
+  induction l with
+  | nil => simp
+  | cons x xs ih => simp only [List.map_cons, List.sum_cons, ih]; norm_num
+
+/-- the weighted, masked sub-density of one set of limits (continuous model), read at the reals -/
+theorem sumL_classPdfRows (comps : List (Comp ℝ)) (hne : comps ≠ []) (total : ℝ) (c : LimitClass ℝ) (m : ℝ)
+    (hstep : c.step = none) (hmax : c.tmax = some m) (x : ℝ) :
+    sumL (classPdfRows comps total c x x)
+      = c.count / total * (Ico c.tmin m).indicator (fun t => pdfCont comps c.tmin c.tmax t) x := by
+  unfold classPdfRows
+  simp only [hstep]
+  have hmap : ∀ k : ℝ, sumL ((pdfRows comps ⟨x, c.tmin, c.tmax, none⟩).map fun p => c.count / total * k * p * 1.0)
+      = c.count / total * k * pdfCont comps c.tmin c.tmax x := by
+    intro k
+    have : (fun p : ℝ => c.count / total * k * p * 1.0) = fun p => p * (c.count / total * k) := by
+      funext p; norm_num; ring
+    rw [sumL_eq_sum, this, sum_map_mul_const, List.map_id', ← sumL_eq_sum, sumL_pdfRows comps hne]
+    unfold pdfCont; ring
+  by_cases hx : x ∈ Ico c.tmin m
+  · have hw : inWindow c.tmin c.tmax x = true := by
+      simp only [inWindow, hmax, RealLike.le, RealLike.lt, Bool.and_eq_true, decide_eq_true_eq]
+      exact hx
+    rw [if_pos hw, hmap, indicator_of_mem hx]; norm_num
+  · have hw : ¬ inWindow c.tmin c.tmax x = true := by
+      simp only [inWindow, hmax, RealLike.le, RealLike.lt, Bool.and_eq_true, decide_eq_true_eq]
+      exact hx
+    rw [if_neg hw, hmap, indicator_of_notMem hx]; norm_num
+
+
+/-- the limits of a class of the continuous model with a finite window inside `[lo, hi]` -/
+def WindowIn (lo hi : ℝ) (c : LimitClass ℝ) : Prop :=
+  c.step = none ∧ ∃ m, c.tmax = some m ∧ lo ≤ c.tmin ∧ c.tmin < m ∧ m ≤ hi
+
+theorem pooledPdf_eq (comps : List (Comp ℝ)) (hne : comps ≠ []) (classes : List (LimitClass ℝ)) (lo hi : ℝ)
+    (hcls : ∀ c ∈ classes, WindowIn lo hi c) (x : ℝ) :
+    pooledPdf comps classes x (fun _ => x)
+      = (classes.map fun c => c.count / sumL (classes.map (·.count))
+          * (Ico c.tmin (c.tmax.getD 0)).indicator (fun t => pdfCont comps c.tmin c.tmax t) x).sum := by
+  unfold pooledPdf pooledPdfRows
+  have hlen : ∀ c ∈ classes, (classPdfRows comps (sumL (classes.map (·.count))) c x x).length = comps.length := by
+    intro c _
+    unfold classPdfRows pdfRows
+    rw [List.length_map, List.length_map, logComps_length]
+  rw [sumL_foldl_addRows comps.length _ classes _ (by simp) hlen, sumL_zeros, zero_add]
+  congr 1
+  refine List.map_congr_left fun c hc => ?_
+  obtain ⟨hstep, m, hmax, -⟩ := hcls c hc
+  rw [sumL_classPdfRows comps hne _ c m hstep hmax x, hmax]
+  rfl
+
+end pooled
+
 end Verif.C15
